@@ -158,6 +158,32 @@ except Exception as e:  # noqa
     miss.append(f'extract_task: {e}')
     ts = None
 
+try:
+    import extract_wbs
+    try:
+        ws = extract_wbs.extract(open(os.path.join(src, 'task.py')).read(), open(os.path.join(src, 'wbs.py')).read())
+        ok.append('wbs_src')
+    except Exception as e:  # noqa
+        ws = extract_wbs.PINNED
+        miss.append(f'wbs_src: {e}')
+    vals['wbs_src'] = ws
+except Exception as e:  # noqa
+    miss.append(f'extract_wbs: {e}')
+    ws = None
+
+try:
+    import extract_facade
+    try:
+        fs = extract_facade.extract(open(os.path.join(src, 'task.py')).read())
+        ok.append('facade_src')
+    except Exception as e:  # noqa
+        fs = extract_facade.PINNED
+        miss.append(f'facade_src: {e}')
+    vals['facade_src'] = fs
+except Exception as e:  # noqa
+    miss.append(f'extract_facade: {e}')
+    fs = None
+
 
 def write_if_changed(path, content):
     os.makedirs(os.path.dirname(path), exist_ok=True)
@@ -196,6 +222,10 @@ if ks is not None:
     write_if_changed(os.path.join(lean, 'PjVerif', 'Extracted', 'CalcSrc.lean'), extract_calc.to_lean(ks))
 if ts is not None:
     write_if_changed(os.path.join(lean, 'PjVerif', 'Extracted', 'TaskSrc.lean'), extract_task.to_lean(ts))
+if ws is not None:
+    write_if_changed(os.path.join(lean, 'PjVerif', 'Extracted', 'WbsSrc.lean'), extract_wbs.to_lean(ws))
+if fs is not None:
+    write_if_changed(os.path.join(lean, 'PjVerif', 'Extracted', 'FacadeSrc.lean'), extract_facade.to_lean(fs))
 os.makedirs(os.path.join(verif, 'out'), exist_ok=True)
 write_if_changed(os.path.join(verif, 'out', 'extracted.json'), json.dumps(vals, indent=1))
 print(json.dumps({'ok': ok, 'miss': miss}))
